@@ -168,7 +168,12 @@ TMkdir ==
      IF ~DirOp(t) THEN Bad("NC:directory-operation-outside-use")
      ELSE IF r = "ok" THEN Good(S, [D EXCEPT !.root = @ \cup {n}, !.made[t] = n])
      ELSE IF r = "inj" THEN Good(S, [D EXCEPT !.excuse[t] = TRUE])
-     ELSE Good(S, [D EXCEPT !.mkerr[t] = n])
+     \* failed by itself: legitimate only for a digest-named directory that
+     \* exists (see MkdirExcused; decided here, because a cleaning at the end
+     \* of this very request may empty the root before GetEnd is logged, and
+     \* again at GetEnd for operations of other threads that are logged late)
+     ELSE Good(S, [D EXCEPT !.mkerr[t] = n,
+                            !.excuse[t] = @ \/ (D.req[t] # None /\ (n \in D.root \/ SameDigestBusy(t)))])
 
 TEnter ==
   /\ IsEvent("Enter")
